@@ -364,7 +364,7 @@ func c15Loop(c *Ctx, h *handleModel) {
 	r.Check(stopBad == "", "R15-stop", "self-termination on depth limit and forced mate, after publication", where, "", stopBad)
 	r.Check(mateOnScore, "R15-stop", "the mate test looks at the score just searched", where, "", "")
 	// Analyze default depth
-	if an := c.P.Func("pkg/engine", "Engine", "Analyze"); an != nil {
+	if an := c.find("pkg/engine", "Engine", "Analyze"); an != nil {
 		good := false
 		for _, fs := range allFieldStores(c.P) {
 			if fs.Fn == an && fs.Field == "DepthLimit" {
